@@ -27,16 +27,18 @@ MUTATIONS = ["move"] * 5 + ["remove"] * 2 + ["add"] * 2 + ["add_node"] * 2 + ["s
 
 
 @st.composite
-def cases(draw, typed=None, max_ops=8, max_nodes=10, kinds=None, explicit_ids=False, min_nodes=4):
+def cases(draw, typed=None, max_ops=8, max_nodes=10, kinds=None, explicit_ids=False, min_nodes=4, big=None):
     ty = draw(st.sampled_from([False, False, True])) if typed is None else typed  # typed trees do not support move_to
     kinds = list(kinds or MUTATIONS)
+    if big is None:
+        big = (20, 130)  # the oracle runs several times per case
     # half of the cases concentrate on one kind of mutation: a remembered answer typically survives exactly one
     # kind of operation (the one whose code path forgets to invalidate it)
     focus = draw(st.sampled_from([None] + sorted(set(kinds))))
     if focus is not None and draw(st.booleans()):
         kinds = [focus] * (2 * len(kinds)) + kinds
     case = draw(gen_ops.histories(typed=ty, max_ops=max_ops, max_nodes=max_nodes, explicit_ids=explicit_ids,
-                                  kinds=kinds, min_nodes=min(min_nodes, max_nodes), min_ops=min(3, max_ops), invalid_bias=draw(st.sampled_from([False, False, True]))))
+                                  kinds=kinds, min_nodes=min(min_nodes, max_nodes), min_ops=min(3, max_ops), big=big, invalid_bias=draw(st.sampled_from([False, False, True]))))
     # at which steps the oracle is evaluated again (always before the first and after the last step)
     # (after every step: catches what a single operation fails to invalidate; sparse: catches answers that are
     # refreshed by a coarse criterion such as a changed node count)
